@@ -89,7 +89,14 @@ pub mod implementations {
             bail!("neg requires one item on the local operating stack")
         };
 
-        val.negate()?;
+        // the operand may be a reference to a list element / field, or a present optional
+        let mut operand = match val.clone().move_out_of_heap_primitive()? {
+            Primitive::Optional(Some(ref inner)) => inner.as_ref().clone(),
+            other => other,
+        };
+
+        operand.negate()?;
+        *val = operand;
 
         Ok(())
     }
@@ -100,11 +107,17 @@ pub mod implementations {
             bail!("not requires one item on the local operating stack")
         };
 
-        let Primitive::Bool(val) = val else {
+        // the operand may be a reference to a list element / field, or a present optional
+        let operand = match val.clone().move_out_of_heap_primitive()? {
+            Primitive::Optional(Some(ref inner)) => inner.as_ref().clone(),
+            other => other,
+        };
+
+        let Primitive::Bool(operand) = operand else {
             bail!("not can only negate booleans")
         };
 
-        *val = !*val;
+        *val = Primitive::Bool(!operand);
 
         Ok(())
     }
